@@ -1062,7 +1062,9 @@ def _coalesce_helper_locals(f) -> bool:
             if isinstance(st, ast.Assign):
                 return any(isinstance(m, ast.Name) and m.id == y for t in st.targets for m in ast.walk(t))
             if isinstance(st, ast.If):
-                return any(definitely(q) for q in st.body) and any(definitely(q) for q in st.orelse)
+                def branch(b_):            # binds y, or does not complete normally (so it never reaches the copy)
+                    return any(definitely(q) for q in b_) or (bool(b_) and isinstance(b_[-1], ast.Raise))
+                return branch(st.body) and branch(st.orelse) and (any(definitely(q) for q in st.body) or any(definitely(q) for q in st.orelse))
             return False
         if not stores_y or not any(definitely(st) for st in b):
             continue               # y must be bound on every path before the copy (otherwise the copy raises where the renamed code would not)
